@@ -47,7 +47,7 @@ UB_CHECKS = ("MisalignedPointerDereference", "NullPointerDereference")
 
 
 class Ob:
-    __slots__ = ("kind", "key", "fn", "at", "frame", "block", "terms", "goal", "desc", "status", "why", "scope_deps")
+    __slots__ = ("kind", "key", "fn", "at", "frame", "block", "terms", "goal", "desc", "status", "why", "scope_deps", "debug_only")
 
     def __init__(self, kind, ev, terms, goal, desc):
         self.kind = kind
@@ -61,6 +61,8 @@ class Ob:
         self.status = None
         self.why = ""
         self.scope_deps = set()
+        # inside the expansion of debug_assert!/debug_assert_eq!/debug_assert_ne!: exists only with cfg(debug_assertions)
+        self.debug_only = "macro:debug_assert" in (ev.get("x") or "")
         callee = (ev.get("callee") or ev.get("mk") or "").split("::")[-1]
         self.key = None  # assigned by collect()
 
@@ -128,7 +130,10 @@ def collect(eng, entry_name):
     obs.sort(key=lambda o: (o.fn, o.at, o.kind, o.desc))
     counts = {}
     for o in obs:
-        base = "%s>%s#%s:%s" % (entry_name, o.fn, o.kind, o.desc.split(" of ")[-1] if " of " in o.desc else o.desc)
+        what = o.desc.split(" of ")[-1] if " of " in o.desc else o.desc
+        if o.kind == "pre:variant" and what == "expect":
+            what = "unwrap"          # unwrap() and expect(..) are the same failure site (keys must survive that rewrite)
+        base = "%s>%s#%s:%s" % (entry_name, o.fn, o.kind, what)
         n = counts.get((base, o.frame), 0)
         counts[(base, o.frame)] = n + 1
         o.key = base + ("" if n == 0 else ".%d" % n)
@@ -502,6 +507,14 @@ def _inv_uniform(eng, o, idx, ln):
                 if x.op != "enum" and y.op == "payload" and y.args[1:] == (1, 0):
                     sy = y.args[0]          # len == *cell.get_or_insert(len): compared with the payload of the set-once cell
                 if lx.op == "len" and lx.args[0].op == "field" and lx.args[0].args[1] == k and \
+                        _same_elem(lx.args[0].args[0], el) and sy.op != "phi" and _loop_invariant(eng, y, fkey):
+                    # compared with a value that is the same on every iteration (e.g. the peeked first element's length,
+                    # computed before the loop): all stored elements share that one length
+                    o.status = True
+                    o.why = ("INV-UNIFORM: every element stored into the indexed collection passed `y.len() == L` at its single "
+                             "write site (%s) for a loop-invariant L" % p["at"])
+                    return True
+                if lx.op == "len" and lx.args[0].op == "field" and lx.args[0].args[1] == k and \
                         _same_elem(lx.args[0].args[0], el) and sy.op == "phi" and (x.op == "enum") == (sy is y):
                     if _set_once(eng, sy, fkey):
                         o.status = True
@@ -509,6 +522,37 @@ def _inv_uniform(eng, o, idx, ln):
                                  "single write site (%s), and the reference length is assigned only while unset" % p["at"])
                         return True
     return False
+
+
+def _loop_invariant(eng, y, fkey):
+    """y names the same value on every iteration of the loops of frame fkey: it mentions no current element / counter /
+    accumulator (except below `peeked`, which designates the first element) and no join of that frame"""
+    stack, seen, n = [y], set(), 0
+    while stack and n < 2000:
+        x = stack.pop()
+        n += 1
+        if isinstance(x, (tuple, frozenset, list)):
+            stack.extend(x)
+            continue
+        if not is_t(x) or x.id in seen:
+            continue
+        seen.add(x.id)
+        if x.op == "peeked":
+            continue
+        if x.op in ("elem", "range_elem", "acc"):
+            site = str(x.args[-1]) if x.op != "elem" else str(x.args[1]) if len(x.args) > 1 else ""
+            if not site or site.startswith(fkey):
+                return False          # an iteration of this frame (or of a frame it calls)
+            # an element of an iteration of an enclosing frame is fixed while this frame runs
+            stack.extend(a for a in x.args if is_t(a))
+            continue
+        if x.op == "phi":
+            site = Q.phi_site(eng, x.args[0])
+            if site is None or site[0] == fkey:
+                return False
+            continue
+        stack.extend(x.args)
+    return n < 2000
 
 
 def _same_elem(a, b):
